@@ -37,7 +37,21 @@ def session_pids(sid, exclude_tracker=True):
 
 
 def run(scenario, args=None, plan=None, timeout=90, env_extra=None, module="vf.real.scenario",
-        post=None):
+        post=None, retry=None):
+    """One real run.  A run that times out or yields no result although no fault was planned is
+    repeated once (a slow machine must not read as a violation)."""
+    if retry is None:
+        retry = plan is None
+    r = _run_once(scenario, args, plan, timeout, env_extra, module, post)
+    if retry and (r["status"] != "ok" or r["result"] is None):
+        r2 = _run_once(scenario, args, plan, timeout * 2, env_extra, module, post)
+        r2["retried"] = True
+        return r2
+    return r
+
+
+def _run_once(scenario, args=None, plan=None, timeout=90, env_extra=None,
+              module="vf.real.scenario", post=None):
     tmp = tempfile.mkdtemp(prefix="vfR_")
     out = os.path.join(tmp, "out.json")
     env = dict(os.environ)
